@@ -123,32 +123,60 @@ def extract():
                 label = label + '.' + p
             return obj
 
-        def visit(node, stack, in_attr=False):
+        def dispatch_tables(fnode):
+            """local names bound exactly once, to a dict literal: `methods = {key: function, ...}` — the package's dispatch idiom"""
+            counts, tables = {}, {}
+            for n_ in ast.walk(fnode):
+                if isinstance(n_, ast.Assign):
+                    for t_ in n_.targets:
+                        if isinstance(t_, ast.Name):
+                            counts[t_.id] = counts.get(t_.id, 0) + 1
+                            if isinstance(n_.value, ast.Dict):
+                                tables[t_.id] = list(n_.value.values)
+                elif isinstance(n_, (ast.AugAssign, ast.AnnAssign)) and isinstance(n_.target, ast.Name):
+                    counts[n_.target.id] = counts.get(n_.target.id, 0) + 1
+            return {k: v for k, v in tables.items() if counts.get(k) == 1}
+
+        def obj_of(f, st_here, site):
+            obj = None
+            if isinstance(f, ast.Attribute):
+                base, parts = chain_of(f)
+                if base is not None and is_module_alias(base, st_here):
+                    obj = resolve(base, parts, site)
+            elif isinstance(f, ast.Name) and f.id in defs and not any(
+                    (lambda s: s.is_local() or s.is_parameter() or s.is_free())(st.lookup(f.id))
+                    for st in st_here[1:] if f.id in [x.get_name() for x in st.get_symbols()]):
+                obj = getattr(sys.modules.get(modname), f.id, None)
+                if f.id in alias and ':' in alias[f.id]:
+                    m, a = alias[f.id].split(':')
+                    obj = getattr(importlib.import_module(m), a, None)
+            return obj
+
+        def record_call(obj, node, site, st_here):
+            pyf = getattr(obj, 'py_func', obj)
+            if inspect.isfunction(pyf) and getattr(pyf, '__module__', '').startswith(PKG):
+                if not any(isinstance(a, ast.Starred) for a in node.args) and not any(k.arg is None for k in node.keywords):
+                    calls.append((f'{pyf.__module__}.{pyf.__qualname__}', len(node.args), sorted(k.arg for k in node.keywords), site, enclosing(st_here, modname)))
+
+        def visit(node, stack, in_attr=False, disp=None):
             st_here = stack
+            disp = disp or {}
             if isinstance(node, (ast.FunctionDef, ast.AsyncFunctionDef, ast.Lambda, ast.ClassDef)):
                 nm = getattr(node, 'name', 'lambda')
                 st = scopes.get((nm, node.lineno))
                 if st is not None:
                     st_here = stack + [st]
+                if isinstance(node, (ast.FunctionDef, ast.AsyncFunctionDef)):
+                    disp = dispatch_tables(node)
             if isinstance(node, ast.Call):
                 f = node.func
-                obj = None
                 site = f'{fn}:{node.lineno}'
-                if isinstance(f, ast.Attribute):
-                    base, parts = chain_of(f)
-                    if base is not None and is_module_alias(base, st_here):
-                        obj = resolve(base, parts, site)
-                elif isinstance(f, ast.Name) and f.id in defs and not any(
-                        (lambda s: s.is_local() or s.is_parameter() or s.is_free())(st.lookup(f.id))
-                        for st in st_here[1:] if f.id in [x.get_name() for x in st.get_symbols()]):
-                    obj = getattr(sys.modules.get(modname), f.id, None)
-                    if f.id in alias and ':' in alias[f.id]:
-                        m, a = alias[f.id].split(':')
-                        obj = getattr(importlib.import_module(m), a, None)
-                pyf = getattr(obj, 'py_func', obj)
-                if inspect.isfunction(pyf) and getattr(pyf, '__module__', '').startswith(PKG):
-                    if not any(isinstance(a, ast.Starred) for a in node.args) and not any(k.arg is None for k in node.keywords):
-                        calls.append((f'{pyf.__module__}.{pyf.__qualname__}', len(node.args), sorted(k.arg for k in node.keywords), site, enclosing(st_here, modname)))
+                if isinstance(f, ast.Subscript) and isinstance(f.value, ast.Name) and f.value.id in disp:
+                    # dict dispatch: the call must fit EVERY function the table can select
+                    for v in disp[f.value.id]:
+                        record_call(obj_of(v, st_here, site), node, site + f'[{f.value.id}]', st_here)
+                else:
+                    record_call(obj_of(f, st_here, site), node, site, st_here)
             if isinstance(node, ast.Attribute) and not in_attr:
                 base, parts = chain_of(node)
                 if base is not None and is_module_alias(base, st_here):
@@ -157,10 +185,10 @@ def extract():
                 inner = node
                 while isinstance(inner, ast.Attribute):
                     inner = inner.value
-                visit(inner, st_here)
+                visit(inner, st_here, False, disp)
                 return
             for c in ast.iter_child_nodes(node):
-                visit(c, st_here)
+                visit(c, st_here, False, disp)
 
         def enclosing(stack, modname):
             names = [s.get_name() for s in stack if s.get_type() == 'function']
